@@ -115,3 +115,20 @@ Proof.
   - intros acc [i pt]. cbn [fst snd]. unfold off_vec, off_angle, move_vec. cbv zeta. reflexivity.
 Qed.
 End Method.
+
+(* ---- LineSegment3D.from_sdl (generated; used to lay out the sub-rectangles): start point s, direction d scaled to the length L *)
+Theorem from_sdl_spec qsqrt s d L :
+  let m := v3x d * v3x d + v3y d * v3y d + v3z d * v3z d in
+  qsqrt m * qsqrt m == m -> ~ m == 0 ->
+  let sg := LineSegment3D_from_sdl qsqrt s d L in
+  lr3p sg = s /\ dot3 (lr3v sg) (lr3v sg) == L * L /\ cross3 (lr3v sg) d =3= mkV3 0 0 0 /\ dot3 (lr3v sg) d == L * qsqrt m.
+Proof.
+  cbv zeta. intros Hr Hm. unfold LineSegment3D_from_sdl, LineSegment3D_op_init, Vector3D_op_truediv, Vector3D_op_mul, Vector3D_magnitude, Vector3D_op_abs.
+  cbv zeta. cbn [lr3p lr3v]. set (m := v3x d * v3x d + v3y d * v3y d + v3z d * v3z d) in *. set (r := qsqrt m) in *.
+  assert (Hq : ~ r == 0) by (intro E; apply Hm; rewrite <- Hr, E; ring).
+  split; [reflexivity|]. split; [|split].
+  - unfold dot3. cbn [v3x v3y v3z].
+    transitivity (L * L * m / (r * r)); [unfold m; field; exact Hq|]. rewrite Hr. field. exact Hm.
+  - unfold cross3, v3eq. cbn [v3x v3y v3z]. repeat split; field; exact Hq.
+  - unfold dot3. cbn [v3x v3y v3z]. transitivity (L * m / r); [unfold m; field; exact Hq|]. rewrite <- Hr. field. exact Hq.
+Qed.
